@@ -8,6 +8,11 @@ KIT_C_BEGIN
 sexp sexp_bignum_add_fixnum (sexp ctx, sexp a, sexp b);
 sexp sexp_bignum_add_digits (sexp ctx, sexp dst, sexp a, sexp b);
 sexp sexp_bignum_sub_digits (sexp ctx, sexp dst, sexp a, sexp b);
+sexp sexp_bignum_fxmul (sexp ctx, sexp d, sexp a, sexp_uint_t b, int offset);
+sexp_uint_t sexp_bignum_fxdiv (sexp ctx, sexp a, sexp_uint_t b, int offset);
+sexp sexp_bignum_fxrem (sexp ctx, sexp a, sexp_sint_t b);
+sexp sexp_bignum_mul (sexp ctx, sexp dst, sexp a, sexp b);
+sexp sexp_bignum_quot_rem (sexp ctx, sexp *rem, sexp a, sexp b);
 KIT_C_END
 
 #define OP_ADD 1        /* sexp_bignum_add(ctx, dst, a, b)        */
@@ -28,6 +33,16 @@ KIT_C_END
 #define OP_ADDD 15      /* sexp_bignum_add_digits on magnitudes whose top word is non-zero (lengths concrete) */
 #define OP_SUBD 16      /* sexp_bignum_sub_digits likewise */
 
+/* products and quotients (R7): one operand is a constant taken from the real call sites / the
+   boundary lattice (-DBW0/-DBW1/-DBW2 words, -DBSIGN; or fixnum -DBV), the other is free */
+#define OP_GMUL 17      /* generic sexp_mul                         */
+#define OP_GQUOREM 18   /* generic sexp_quotient + sexp_remainder, checked jointly */
+#define OP_FXMUL 20     /* sexp_bignum_fxmul(ctx, dst, a, W, 0)     */
+#define OP_FXDIV 21     /* sexp_bignum_fxdiv(ctx, a, W, 0) in place */
+#define OP_FXREM 22     /* sexp_bignum_fxrem(ctx, a, W)             */
+#define OP_MUL 23       /* sexp_bignum_mul(ctx, NULL, a, b)         */
+#define OP_QUOTREM 24   /* sexp_bignum_quot_rem(ctx, &rem, a, b)    */
+
 #ifndef AK
 #define AK 1
 #endif
@@ -36,7 +51,16 @@ KIT_C_END
 #endif
 
 static sexp big(int k) {               /* free bignum, sign ±1, any words */
-  return kit_any_bignum(k, 0);
+  sexp b = kit_any_bignum(k, 0);
+#ifdef ATOP
+  /* the top word is a (non-zero) boundary constant, so that the significant length is known to
+     symex and the recursion of sexp_bignum_mul is explored along the real path only */
+  if (k == AK) sexp_bignum_data(b)[k-1] = (sexp_uint_t)(ATOP);
+#endif
+#ifdef AMID
+  if (k == AK && k >= 3) sexp_bignum_data(b)[k-2] = (sexp_uint_t)(AMID);
+#endif
+  return b;
 }
 static sexp number(int k, sexp_sint_t cval) {   /* exact integer as Scheme code sees it */
   if (k == 0) return cval == 0x7fffffff ? kit_any_fixnum() : sexp_make_fixnum(cval);
@@ -51,7 +75,73 @@ static sexp number(int k, sexp_sint_t cval) {   /* exact integer as Scheme code 
 #define BV 0x7fffffff
 #endif
 
+#ifdef BW0
+#ifndef BSIGN
+#define BSIGN 1
+#endif
+#ifndef BW1
+#define BW1 0
+#endif
+#ifndef BW2
+#define BW2 0
+#endif
+static sexp const_big(void) {           /* the constant operand, BK words */
+  static const sexp_uint_t w[3] = {BW0, BW1, BW2};
+  sexp b = kit_bignum(BK, BSIGN);
+  for (int i = 0; i < BK; i++) sexp_bignum_data(b)[i] = w[i];
+  return b;
+}
+#endif
+static wide wabs(wide v) { return v < (wide)0 ? -v : v; }
 static int sgn(wide v) { return v < (wide)0 ? -1 : v > (wide)0 ? 1 : 0; }
+
+#ifdef MUL_MODEL
+/* Induction hypothesis for the recursive multiplication: the unit under test is a copy of
+   bignum.c whose *definition* of sexp_bignum_mul is renamed sexp_bignum_mul_body (checks/C04.py:
+   prepare); every call site in it binds to this specification. */
+#ifndef MLEN
+#define MLEN (AK + BK + 1)
+#endif
+KIT_C_BEGIN
+sexp sexp_bignum_mul_body (sexp ctx, sexp dst, sexp a, sexp b);
+sexp sexp_bignum_mul (sexp ctx, sexp dst, sexp a, sexp b) {
+  wide p = wide_of(a) * wide_of(b);
+  uwide m = (uwide) wabs(p);
+  sexp r = kit_bignum(MLEN, sexp_bignum_sign(a) * sexp_bignum_sign(b));
+  for (int i = 0; i < MLEN; i++) sexp_bignum_data(r)[i] = (sexp_uint_t) (m >> (64 * i));
+  KIT_ASSERT((m >> (64 * MLEN)) == (uwide)0, "model result length suffices");
+  return r;
+}
+#if MUL_MODEL >= 2
+/* level 2: sexp_bignum_add / sexp_bignum_sub are specifications too (their bodies are the subject
+   of the bignum_add / bignum_sub / add_digits / sub_digits queries) */
+static sexp model_sum(sexp a, sexp b, int neg) {
+  wide s = neg ? wide_of(a) - wide_of(b) : wide_of(a) + wide_of(b);
+  uwide m = (uwide) wabs(s);
+  sexp r = kit_bignum(MLEN + 1, s < (wide)0 ? -1 : 1);
+  for (int i = 0; i < MLEN + 1; i++) sexp_bignum_data(r)[i] = (sexp_uint_t) (m >> (64 * i));
+  KIT_ASSERT((m >> (64 * (MLEN + 1))) == (uwide)0, "model result length suffices");
+  return r;
+}
+sexp sexp_bignum_add (sexp ctx, sexp dst, sexp a, sexp b) { return model_sum(a, b, 0); }
+sexp sexp_bignum_sub (sexp ctx, sexp dst, sexp a, sexp b) { return model_sum(a, b, 1); }
+#endif
+#if MUL_MODEL >= 3
+/* level 3: the generic sexp_add / sexp_sub on exact integers (subject of the sexp_add[..] / sexp_sub[..]
+   queries): exact value, canonical representation */
+static sexp model_gsum(sexp a, sexp b, int neg) {
+  wide s = neg ? wide_of(a) - wide_of(b) : wide_of(a) + wide_of(b);
+  if (s >= (wide)SEXP_MIN_FIXNUM && s <= (wide)SEXP_MAX_FIXNUM) return sexp_make_fixnum((sexp_sint_t)(long)s);
+  return model_sum(a, b, neg);
+}
+sexp sexp_add (sexp ctx, sexp a, sexp b) { return model_gsum(a, b, 0); }
+sexp sexp_sub (sexp ctx, sexp a, sexp b) { return model_gsum(a, b, 1); }
+#endif
+KIT_C_END
+#define MUL_ENTRY sexp_bignum_mul_body
+#else
+#define MUL_ENTRY sexp_bignum_mul
+#endif
 
 void harness(void) {
   sexp ctx = kit_ctx();
@@ -185,6 +275,91 @@ void harness(void) {
   sexp_bignum_sign(r) = 1;
   KIT_ASSERT(wide_of(r) == (va >= vb ? va - vb : vb - va), "sub_digits yields the absolute difference of the magnitudes");
 #endif
+  KIT_ASSERT(wide_of(a) == va && wide_of(b) == vb, "operands unchanged");
+#elif OP == OP_FXMUL
+  sexp a = big(AK);
+  wide ma = wabs(wide_of(a));
+  int sign = sexp_bignum_sign(a);
+#ifdef ALIAS
+  sexp r = sexp_bignum_fxmul(ctx, a, a, (sexp_uint_t)(W), 0);     /* as the number reader calls it */
+#else
+  sexp r = sexp_bignum_fxmul(ctx, NULL, a, (sexp_uint_t)(W), 0);
+  KIT_ASSERT(wabs(wide_of(a)) == ma, "operand unchanged");
+#endif
+  KIT_ASSERT(sexp_bignump(r), "result is a bignum");
+  KIT_ASSERT(wabs(wide_of(r)) == ma * (wide)(uwide)(sexp_uint_t)(W), "fxmul multiplies the magnitude by the word");
+#elif OP == OP_FXDIV
+  sexp a = big(AK);
+  wide ma = wabs(wide_of(a));
+  sexp_uint_t r = sexp_bignum_fxdiv(ctx, a, (sexp_uint_t)(W), 0);
+  KIT_ASSERT(r < (sexp_uint_t)(W), "remainder is below the divisor");
+  KIT_ASSERT(wabs(wide_of(a)) * (wide)(uwide)(sexp_uint_t)(W) + (wide)(uwide)r == ma, "fxdiv leaves the quotient in place: a == q*w + r");
+#elif OP == OP_FXREM
+  sexp a = big(AK);
+  wide va = wide_of(a), ma = wabs(va);
+  sexp r = sexp_bignum_fxrem(ctx, a, (sexp_sint_t)(W));
+  KIT_ASSERT(wide_of(a) == va, "operand unchanged");
+  KIT_ASSERT(sexp_fixnump(r), "remainder by a word is a fixnum");
+  wide vr = (wide) sexp_unbox_fixnum(r);
+  wide mw = wabs((wide)(sexp_sint_t)(W));
+  KIT_ASSERT(wabs(vr) < mw, "|remainder| < |divisor|");
+  KIT_ASSERT(vr == (wide)0 || sgn(vr) == sgn(va), "remainder has the sign of the dividend");
+  /* the quotient witness comes from the (separately checked) in-place division of a copy */
+  sexp c = sexp_copy_bignum(ctx, NULL, a, 0);
+  sexp_uint_t r2 = sexp_bignum_fxdiv(ctx, c, (sexp_uint_t)((sexp_sint_t)(W) < 0 ? -(sexp_sint_t)(W) : (sexp_sint_t)(W)), 0);
+  KIT_ASSERT(wabs(vr) == (wide)(uwide)r2, "fxrem agrees with fxdiv's remainder");
+#elif OP == OP_MUL
+  sexp a = big(AK), b = const_big();
+  wide va = wide_of(a), vb = wide_of(b);
+#ifdef SWAP
+  sexp r = MUL_ENTRY(ctx, NULL, b, a);
+#else
+  sexp r = MUL_ENTRY(ctx, NULL, a, b);
+#endif
+  KIT_ASSERT(sexp_bignump(r), "result is a bignum");
+  KIT_ASSERT(wide_of(r) == va * vb, "bignum product equals the mathematical product");
+  KIT_ASSERT(wide_of(a) == va && wide_of(b) == vb, "operands unchanged");
+#elif OP == OP_QUOTREM
+  sexp a = big(AK), b = const_big(), rem = SEXP_VOID;
+  wide va = wide_of(a), vb = wide_of(b);
+  sexp q = sexp_bignum_quot_rem(ctx, &rem, a, b);
+  KIT_ASSERT(sexp_fixnump(q) || sexp_bignump(q), "quotient is an exact integer");
+  KIT_ASSERT(sexp_fixnump(rem) || sexp_bignump(rem), "remainder is an exact integer");
+  wide vq = wide_of(q), vr = wide_of(rem);
+  KIT_ASSERT(vq * vb + vr == va, "a == q*b + r");
+  KIT_ASSERT(wabs(vr) < wabs(vb), "|r| < |b|");
+  KIT_ASSERT(vr == (wide)0 || sgn(vr) == sgn(va), "remainder has the sign of the dividend");
+  KIT_ASSERT(wide_of(a) == va && wide_of(b) == vb, "operands unchanged");
+#elif OP == OP_GMUL
+#ifdef BW0
+  sexp a = number(AK, AV), b = const_big();
+#else
+  sexp a = number(AK, AV), b = number(BK, BV);
+#endif
+  wide va = wide_of(a), vb = wide_of(b);
+#ifdef SWAP
+  sexp r = sexp_mul(ctx, b, a);
+#else
+  sexp r = sexp_mul(ctx, a, b);
+#endif
+  KIT_ASSERT(wide_canonical(r), "product is a canonical exact integer");
+  KIT_ASSERT(wide_of(r) == va * vb, "sexp_mul is exact");
+  KIT_ASSERT(wide_of(a) == va && wide_of(b) == vb, "operands unchanged");
+#elif OP == OP_GQUOREM
+#ifdef BW0
+  sexp a = number(AK, AV), b = const_big();
+#else
+  sexp a = number(AK, AV), b = number(BK, BV);
+#endif
+  wide va = wide_of(a), vb = wide_of(b);
+  __CPROVER_assume(vb != (wide)0);
+  sexp q = sexp_quotient(ctx, a, b);
+  sexp r = sexp_remainder(ctx, a, b);
+  KIT_ASSERT(wide_canonical(q) && wide_canonical(r), "quotient and remainder are canonical exact integers");
+  wide vq = wide_of(q), vr = wide_of(r);
+  KIT_ASSERT(vq * vb + vr == va, "a == quotient*b + remainder");
+  KIT_ASSERT(wabs(vr) < wabs(vb), "|remainder| < |b|");
+  KIT_ASSERT(vr == (wide)0 || sgn(vr) == sgn(va), "remainder has the sign of the dividend");
   KIT_ASSERT(wide_of(a) == va && wide_of(b) == vb, "operands unchanged");
 #elif OP == OP_COPY
   sexp a = big(AK);
